@@ -472,6 +472,17 @@ impl<
         } else {
             index
         };
+        // TZif data can contain transitions that don't change anything.
+        // (`zic` emits them in some cases.) They aren't transitions as far
+        // as callers are concerned, so skip over them.
+        let mut index = index;
+        while index > 0 && self.is_noop_transition(index) {
+            index -= 1;
+        }
+        if index == 0 {
+            // As above, the first transition is a dummy.
+            return None;
+        }
         let timestamp = self.timestamps()[index];
         let typ = self.local_time_type(index);
         Some(TimeZoneTransition {
@@ -503,25 +514,37 @@ impl<
             Ok(i) => i.checked_add(1)?,
             Err(i) => i,
         };
-        let index = if index == 0 {
+        if index == 0 {
             // The first transition is a dummy that we insert, so if we land on
             // it here, treat it as if it doesn't exist.
             return None;
-        } else if index >= self.timestamps().len() {
-            // The timestamp given is at or after the last transition in the
-            // TZif data, so the only way to find a subsequent transition is
-            // through the POSIX TZ string, if one exists. (If it doesn't, or
-            // if it doesn't have any DST rule, then there are no more known
-            // transitions.)
+        }
+        // TZif data can contain transitions that don't change anything.
+        // (`zic` emits them in some cases.) They aren't transitions as far
+        // as callers are concerned, so skip over them.
+        let mut index = index;
+        while index < self.timestamps().len()
+            && self.is_noop_transition(index)
+        {
+            index += 1;
+        }
+        if index >= self.timestamps().len() {
+            // The timestamp given is at or after the last (real) transition
+            // in the TZif data, so the only way to find a subsequent
+            // transition is through the POSIX TZ string, if one exists. (If
+            // it doesn't, or if it doesn't have any DST rule, then there are
+            // no more known transitions.)
             //
             // N.B. We must not consult the POSIX TZ string when the last
             // transition in the TZif data is still ahead of the timestamp
             // given. That transition is the answer, and the POSIX TZ string
-            // only describes what happens after it.
+            // only describes what happens after it. For the same reason,
+            // if we skipped over transitions above, then we must not ask the
+            // POSIX TZ string about anything before the last of them.
+            let last = self.timestamps()[self.timestamps().len() - 1];
+            let ts = core::cmp::max(ts, Timestamp::constant(last, 0));
             return self.posix_tz()?.next_transition(ts);
-        } else {
-            index
-        };
+        }
         let timestamp = self.timestamps()[index];
         let typ = self.local_time_type(index);
         Some(TimeZoneTransition {
@@ -545,6 +568,21 @@ impl<
         // OK because we require that `type_index` always points to a valid
         // local time type.
         &self.types()[usize::from(self.infos()[transition_index].type_index)]
+    }
+
+    /// Returns true when the transition at the given index doesn't change
+    /// the offset, the DST status or the abbreviation in effect before it.
+    ///
+    /// This always returns false for the first (dummy) transition.
+    fn is_noop_transition(&self, transition_index: usize) -> bool {
+        let Some(prev_index) = transition_index.checked_sub(1) else {
+            return false;
+        };
+        let prev = self.local_time_type(prev_index);
+        let this = self.local_time_type(transition_index);
+        prev.offset == this.offset
+            && prev.is_dst == this.is_dst
+            && self.designation(prev) == self.designation(this)
     }
 
     fn transition_kind(
